@@ -60,6 +60,8 @@ template <class R, int N> inline RV<R, N> operator- (const RV<R, N>& a, const RV
 template <class R, int N> inline RV<R, N> operator* (const RV<R, N>& a, R s) { RV<R, N> o; for (int i = 0; i < N; ++i) o[i] = a[i] * s; return o; }
 template <class R, int N> inline R dot (const RV<R, N>& a, const RV<R, N>& b) { R s = 0; for (int i = 0; i < N; ++i) s += a[i] * b[i]; return s; }
 template <class R, int N> inline R len (const RV<R, N>& a) { return r_sqrt (dot (a, a)); }
+// length in double (for tolerance magnitudes of moderately scaled data only)
+template <class R, int N> inline double dlen (const RV<R, N>& a) { double s = 0; for (int i = 0; i < N; ++i) { double x = (double) a[i]; s += x * x; } return std::sqrt (s); }
 template <class R> inline RV<R, 3> cross (const RV<R, 3>& a, const RV<R, 3>& b)
 {
     RV<R, 3> o;
